@@ -61,7 +61,7 @@ func main() {
 			defer pprof.StopCPUProfile()
 		}
 		t0 := time.Now()
-		p, err := vm.Load("/repo", "/verif/harness", false)
+		p, err := vm.Load(checks.RepoDir, checks.HarnessDir, false)
 		if err != nil {
 			fmt.Println(err)
 			os.Exit(2)
